@@ -178,7 +178,17 @@ func c03Case(c *core.Ctx, id string) {
 		}
 		c.Eval(key)
 		c.Count("failure_patterns", 1)
-		if !recoverAndJudge("bodies failing: "+strings.Join(pat, ","), 0) {
+		what := "bodies failing: " + strings.Join(pat, ",")
+		if pi%2 == 1 {
+			// between the failed build and the next one only docstrings are edited (not part of any
+			// function environment): the failed targets must still be re-executed
+			for _, l := range pat {
+				e.EditDoc(l)
+			}
+			what += ", then docstring-only edits of the failed targets"
+			c.Count("failure_patterns_followed_by_docstring_edits", 1)
+		}
+		if !recoverAndJudge(what, 0) {
 			return
 		}
 	}
